@@ -173,8 +173,47 @@ def emit(repo, spec, H):
         raise ValueError("HCIcskphuff_decode: shape not recognised")
     out.append("Definition skp_dec_internal_max : Z := %d." % H.ceval(lw.group(1), env3))
     out.append("Definition skp_leaf_base : Z := %d." % H.ceval(pl.group(1), env3))
-    # 5. hbitio.c: BITNUM / DATANUM are sizeof expressions
+    # 6. hcomp.c position bookkeeping: the origin handling of HCPseek and the length rule of HCPread, as expressions
+    #    over (offset/length argument, access_rec->posn, info->length); any other operand is an error
+    rawc = H.raw(repo, f)
+
+    def operand(e):
+        e = " ".join(e.split())
+        table = {"access_rec->posn": "posn", "((compinfo_t *)(access_rec->special_info))->length": "elen",
+                 "info->length": "elen", "info->length - access_rec->posn": "(Z.sub elen posn)",
+                 "access_rec->posn + length": "(Z.add posn length)"}
+        if e not in table:
+            raise ValueError("hcomp.c position bookkeeping: unexpected operand %r" % e)
+        return table[e]
+    sb = H.func_body(rawc, "HCPseek")
+    adj = re.findall(r"if\s*\(origin\s*==\s*(DF_[A-Z]+)\)\s*offset\s*\+=\s*([^;]+);", sb)
+    if [a for a, _ in adj] != ["DF_CURRENT", "DF_END"] or not re.search(r"if\s*\(offset\s*<\s*0\)\s*HGOTO_ERROR", sb) \
+            or not re.search(r"access_rec->posn\s*=\s*offset\s*;", sb):
+        raise ValueError("HCPseek: origin handling not recognised: %s" % adj)
+    out.append("(* %s: HCPseek -- offset after the origin adjustment, rejection test, new position *)" % f)
+    out.append("Definition hcp_seek_offset (origin offset posn elen : Z) : Z :=")
+    out.append("  let offset := if Z.eqb origin %d then Z.add offset %s else offset in" % (H.ceval("DF_CURRENT", env), operand(adj[0][1])))
+    out.append("  let offset := if Z.eqb origin %d then Z.add offset %s else offset in offset." % (H.ceval("DF_END", env), operand(adj[1][1])))
+    out.append("Definition hcp_seek_rejects (offset : Z) : bool := Z.ltb offset 0.")
+    rb = H.func_body(rawc, "HCPread")
+    m0 = re.search(r"if\s*\(length\s*==\s*0\)\s*length\s*=\s*([^;]+);\s*else\s+if\s*\(length\s*<\s*0\s*\|\|\s*(.+?)\s+>\s+([^)]+)\)\s*HGOTO_ERROR", rb)
+    if not m0 or not re.search(r"access_rec->posn\s*\+=\s*length\s*;", rb):
+        raise ValueError("HCPread: length rule not recognised")
+    out.append("(* %s: HCPread -- effective length, rejection test *)" % f)
+    out.append("Definition hcp_read_length (length posn elen : Z) : Z := if Z.eqb length 0 then %s else length." % operand(m0.group(1)))
+    out.append("Definition hcp_read_rejects (length posn elen : Z) : bool := if Z.eqb length 0 then false else orb (Z.ltb length 0) (Z.ltb %s %s)." % (operand(m0.group(3)), operand(m0.group(2))))
+    # 7. hbitio.c Hbitseek: the test that decides whether another 4096-byte block has to be loaded
     f4 = "hdf/src/hbitio.c"
+    hb = H.func_body(H.raw(repo, f4), "Hbitseek")
+    mnb = re.search(r"new_block\s*=\s*\((.*?)\)\s*\?\s*TRUE\s*:\s*FALSE\s*;", hb, flags=re.S)
+    if not mnb:
+        raise ValueError("Hbitseek: new_block test not found")
+    e4 = " ".join(mnb.group(1).split()).replace("bitfile_rec->block_offset", "block_offset")
+    env4 = {}
+    env4.update(H.defines(repo, f4))
+    out.append("(* %s: Hbitseek -- new_block = (%s) ? TRUE : FALSE *)" % (f4, " ".join(mnb.group(1).split())))
+    out.append("Definition hbitseek_new_block (byte_offset block_offset : Z) : Z := %s." % H.P(e4, ["byte_offset", "block_offset"], env4).ternary_all())
+    # 5. hbitio.c: BITNUM / DATANUM are sizeof expressions
     d4 = H.defines(repo, f4)
     for nm in ("BITNUM", "DATANUM"):
         e = d4[nm][1]
